@@ -18,7 +18,7 @@ func TestMain(m *testing.M) {
 		"rapid draws a value descriptor (scalars from boundary classes: int widths 255/256/65535/65536/2^31/2^63/2^64/big, "+
 			"uniform 256..65535, raw float bits, string/bytes lengths 0/1/255/256/65535/65536; tuples/lists/dicts/sets/host objects "+
 			"nested to depth 4 with sizes 0..9 and 999/1000/1001/2000/2001/3000 at any position; refs to earlier or enclosing containers "+
-			"give sharing and cycles). Oracle: Iso(v, Decode(Encode(v))) incl. aliasing bijection, deterministic encoding, re-encode fixpoint; "+
+			"give sharing and cycles; tuple slices t[i:j] share the storage of an earlier tuple). Oracle: Iso(v, Decode(Encode(v))) incl. aliasing bijection, deterministic encoding, re-encode fixpoint; "+
 			"pair check: one-leaf mutation must not decode Equal. Non-trivial = value has a boundary scalar, a non-empty container or aliasing; "+
 			"distinct by SHA-256 of the descriptor JSON.",
 		"sizes <= 3002 elements, strings <= 65537 bytes, memo ids < 65536",
@@ -46,6 +46,9 @@ func classify(d starval.V, st starval.Stats) (bool, []string) {
 	if st.Cyclic > 0 {
 		cl = append(cl, "cyclic")
 		nt = true
+	}
+	if starval.HasKind(d, "tslice") {
+		cl = append(cl, "tuple-slice-sharing-storage")
 	}
 	if starval.HasKind(d, "host") {
 		cl = append(cl, "host")
